@@ -348,6 +348,7 @@ func runRequestSchedules(c *hk.Ctx, ctl *controller) {
 func runClientReopen(c *hk.Ctx) {
 	var mu sync.Mutex
 	gets := 0
+	answered := map[string]int{}
 	opened := make(chan int, 8)
 	release := make(chan struct{}, 8)
 	const ms = 1759000000000
@@ -358,6 +359,14 @@ func runClientReopen(c *hk.Ctx) {
 			body, _ := io.ReadAll(r.Body)
 			var m map[string]any
 			json.Unmarshal(body, &m)
+			if _, isAnswer := m["result"]; isAnswer && m["method"] == nil {
+				b, _ := json.Marshal(m["id"])
+				mu.Lock()
+				answered[string(b)]++
+				mu.Unlock()
+				w.WriteHeader(202)
+				return
+			}
 			if m["method"] == "initialize" {
 				w.Header().Set("Content-Type", "application/json")
 				w.Header().Set("Mcp-Session-Id", "0123456789abcdef0123456789abcdef")
@@ -379,6 +388,9 @@ func runClientReopen(c *hk.Ctx) {
 				fmt.Fprintf(w, "id: evt-%d-%d\ndata: {\"jsonrpc\":\"2.0\",\"method\":\"notifications/verif\",\"params\":{\"stream\":%d,\"n\":%d}}\n\n", ms, i, n, i)
 				fl.Flush()
 			}
+			// and a request of the server on this stream: the client answers it with a POST
+			fmt.Fprintf(w, "id: evt-%d-4\ndata: {\"jsonrpc\":\"2.0\",\"id\":%d,\"method\":\"roots/list\"}\n\n", ms, 7000+n)
+			fl.Flush()
 			opened <- n
 			select {
 			case <-release:
@@ -404,6 +416,7 @@ func runClientReopen(c *hk.Ctx) {
 		mu.Unlock()
 		return nil
 	})
+	cl.SetRootsProvider(reopenRoots{})
 	ctx, cancel := context.WithTimeout(context.Background(), 10*time.Second)
 	defer cancel()
 	if _, err := cl.Initialize(ctx, &mcp.InitializeRequest{}); err != nil {
@@ -442,6 +455,18 @@ func runClientReopen(c *hk.Ctx) {
 			}
 		}
 	}
+	var unanswered []int
+	for sidx := 1; sidx <= streams; sidx++ {
+		if answered[fmt.Sprint(7000+sidx)] != 1 {
+			unanswered = append(unanswered, sidx)
+		}
+	}
+	if len(unanswered) > 0 {
+		c.Violate(hk.Violation{Fingerprint: "streams:client:server-request-on-reopened-stream-not-answered-once",
+			What:     "the real client re-opened its listening stream; a roots/list request the server sent on each stream must be answered by exactly one POST",
+			Input:    map[string]any{"streams": streams},
+			Observed: map[string]any{"streams_whose_request_was_not_answered_once": unanswered, "answers": fmt.Sprint(answered)}})
+	}
 	for i := 0; i < 8; i++ {
 		select {
 		case release <- struct{}{}:
@@ -455,4 +480,210 @@ func runClientReopen(c *hk.Ctx) {
 			Input:    map[string]any{"streams": streams, "events_per_stream": 3, "ids": "evt-<same ms>-1..3 on every stream"},
 			Observed: missing})
 	}
+}
+
+// runListRootsAcrossReopen: a roots/list request went out on the OLD stream and was never answered (the client dropped
+// that stream); the client opens a new stream; a ListRoots issued after the new stream's headers were received must be
+// written on the new stream and, once the client answers it there, succeed.
+func runListRootsAcrossReopen(c *hk.Ctx) {
+	f := hk.NewFixture(hk.SrvCfg{Mode: "stateful", Get: true, PostSSE: false})
+	defer f.Close()
+	r := f.Post(nil, `{"jsonrpc":"2.0","id":1,"method":"initialize","params":{"protocolVersion":"2025-03-26","capabilities":{"roots":{"listChanged":true}},"clientInfo":{"name":"v","version":"1"}}}`)
+	sid := ""
+	if r.Header != nil {
+		sid = r.Header.Get("Mcp-Session-Id")
+	}
+	f.Post(map[string]string{"Mcp-Session-Id": sid}, `{"jsonrpc":"2.0","method":"notifications/initialized"}`)
+	sctx, ok := mcp.VerifSessionContext(context.Background(), f.S, sid)
+	if !ok {
+		c.Noise()
+		return
+	}
+	h := map[string]string{"Mcp-Session-Id": sid}
+	_, _, a, err := f.OpenStream(h)
+	if err != nil || a == nil {
+		c.Noise()
+		return
+	}
+	rootsID := func(st *hk.Stream, wait time.Duration, skip int) string {
+		deadline := time.Now().Add(wait)
+		for time.Now().Before(deadline) {
+			n := 0
+			for _, e := range st.Snapshot() {
+				var m map[string]any
+				if json.Unmarshal([]byte(e.Data), &m) == nil && m["method"] == "roots/list" {
+					if n == skip {
+						b, _ := json.Marshal(m["id"])
+						return string(b)
+					}
+					n++
+				}
+			}
+			time.Sleep(2 * time.Millisecond)
+		}
+		return ""
+	}
+	first := make(chan error, 1)
+	go func() {
+		ctx, cancel := context.WithTimeout(sctx, 8*time.Second)
+		defer cancel()
+		_, err := f.S.ListRoots(ctx)
+		first <- err
+	}()
+	if rootsID(a, 2*time.Second, 0) == "" {
+		c.Count("listroots-reopen", false, nil, "first-request-not-seen")
+		a.CloseByClient()
+		return
+	}
+	// the client re-opens its listening stream; the first request stays unanswered
+	_, _, b, err := f.OpenStream(h)
+	if err != nil || b == nil {
+		c.Noise()
+		return
+	}
+	defer b.CloseByClient()
+	a.Ended(2 * time.Second)
+	type res struct {
+		roots int
+		err   error
+	}
+	second := make(chan res, 1)
+	go func() {
+		ctx, cancel := context.WithTimeout(sctx, 5*time.Second)
+		defer cancel()
+		lr, err := f.S.ListRoots(ctx)
+		n := 0
+		if lr != nil {
+			n = len(lr.Roots)
+		}
+		second <- res{n, err}
+	}()
+	id := rootsID(b, 2*time.Second, 0)
+	if id != "" {
+		f.Post(h, fmt.Sprintf(`{"jsonrpc":"2.0","id":%s,"result":{"roots":[{"uri":"file:///verif-reopen","name":"r"}]}}`, id))
+	}
+	var got res
+	select {
+	case got = <-second:
+	case <-time.After(6 * time.Second):
+		got = res{0, fmt.Errorf("ListRoots did not return")}
+	}
+	c.Count("listroots-reopen", true, nil, "listroots-after-reopen")
+	if id == "" || got.err != nil || got.roots != 1 {
+		c.Violate(hk.Violation{Fingerprint: "streams:server-request-after-headers-not-on-newest:listroots",
+			What:     "a roots/list request had gone out on the old stream and was never answered; after the new stream's headers were received a new ListRoots was not written on the new stream / did not succeed when the client answered it there",
+			Input:    map[string]any{"steps": []string{"open A", "ListRoots #1 (written on A, never answered)", "open B (headers received), A closed", "ListRoots #2", "client answers #2 on a POST"}},
+			Observed: map[string]any{"request_seen_on_new_stream": id != "", "error": fmt.Sprint(got.err), "roots": got.roots}})
+	}
+}
+
+// stallNoDeadlineWriter: a ResponseWriter (as a middleware wrapper would give: Flusher but neither Unwrap nor
+// SetWriteDeadline) whose writes after the headers block until released.
+type stallNoDeadlineWriter struct {
+	mu      sync.Mutex
+	hdr     http.Header
+	headers chan struct{}
+	once    sync.Once
+	stall   bool
+	entered chan struct{}
+	eonce   sync.Once
+	gate    chan struct{}
+}
+
+func (w *stallNoDeadlineWriter) Header() http.Header { return w.hdr }
+func (w *stallNoDeadlineWriter) WriteHeader(int)     {}
+func (w *stallNoDeadlineWriter) Flush()              { w.once.Do(func() { close(w.headers) }) }
+func (w *stallNoDeadlineWriter) Write(p []byte) (int, error) {
+	w.mu.Lock()
+	st := w.stall
+	w.mu.Unlock()
+	if st {
+		w.eonce.Do(func() { close(w.entered) })
+		<-w.gate
+	}
+	return len(p), nil
+}
+
+// runStalledOldWrite: a write on the OLD stream is stalled (dead peer, writer without deadline support) at the moment the
+// client re-opens: once the new stream's headers have been received, a notification must be delivered on it — while the
+// old write is still stalled.
+func runStalledOldWrite(c *hk.Ctx) {
+	f := hk.NewFixture(hk.SrvCfg{Mode: "stateful", Get: true, PostSSE: false})
+	defer f.Close()
+	r := f.Post(nil, `{"jsonrpc":"2.0","id":1,"method":"initialize","params":{"protocolVersion":"2025-03-26","capabilities":{},"clientInfo":{"name":"v","version":"1"}}}`)
+	sid := ""
+	if r.Header != nil {
+		sid = r.Header.Get("Mcp-Session-Id")
+	}
+	wa := &stallNoDeadlineWriter{hdr: http.Header{}, headers: make(chan struct{}), entered: make(chan struct{}), gate: make(chan struct{})}
+	ctxA, cancelA := context.WithCancel(context.Background())
+	defer cancelA()
+	reqA := httptest.NewRequest(http.MethodGet, "/mcp", nil).WithContext(ctxA)
+	reqA.Header.Set("Accept", "text/event-stream")
+	reqA.Header.Set("Mcp-Session-Id", sid)
+	doneA := make(chan struct{})
+	go func() { defer close(doneA); f.S.Handler().ServeHTTP(wa, reqA) }()
+	select {
+	case <-wa.headers:
+	case <-time.After(3 * time.Second):
+		c.Noise()
+		close(wa.gate)
+		return
+	}
+	wa.mu.Lock()
+	wa.stall = true
+	wa.mu.Unlock()
+	go f.S.SendNotification(sid, "notifications/verif", map[string]interface{}{"m": "stalled-on-old"})
+	select {
+	case <-wa.entered:
+	case <-time.After(3 * time.Second):
+		c.Count("stalled-old-write", false, nil, "write-did-not-reach-old-stream")
+		close(wa.gate)
+		return
+	}
+	_, _, b, err := f.OpenStream(map[string]string{"Mcp-Session-Id": sid})
+	if err != nil || b == nil {
+		c.Noise()
+		close(wa.gate)
+		return
+	}
+	defer b.CloseByClient()
+	res := make(chan error, 1)
+	go func() {
+		res <- f.S.SendNotification(sid, "notifications/verif", map[string]interface{}{"m": "after-reopen-while-old-write-stalled"})
+	}()
+	var serr error
+	delivered := false
+	select {
+	case serr = <-res:
+		deadline := time.Now().Add(1500 * time.Millisecond)
+		for time.Now().Before(deadline) && !delivered {
+			for _, e := range b.Snapshot() {
+				if strings.Contains(e.Data, "after-reopen-while-old-write-stalled") {
+					delivered = true
+				}
+			}
+			time.Sleep(5 * time.Millisecond)
+		}
+	case <-time.After(3 * time.Second):
+		serr = fmt.Errorf("SendNotification did not return within 3 s")
+	}
+	close(wa.gate) // the old write ends at last
+	select {
+	case <-doneA:
+	case <-time.After(3 * time.Second):
+	}
+	c.Count("stalled-old-write", true, nil, "stalled-old-write")
+	if serr != nil || !delivered {
+		c.Violate(hk.Violation{Fingerprint: "streams:send-after-headers-not-on-newest:old-write-stalled",
+			What:     "a write on the old stream was stalled (writer without deadline support) when the client re-opened; after the new stream's headers were received a notification was not delivered on it while the old write was still stalled",
+			Input:    map[string]any{"steps": []string{"open A (in-process writer)", "send (stalls in A's Write)", "open B (headers received)", "send"}},
+			Observed: map[string]any{"send_error": fmt.Sprint(serr), "delivered_on_new_stream": delivered}})
+	}
+}
+
+type reopenRoots struct{}
+
+func (reopenRoots) GetRoots() []mcp.Root {
+	return []mcp.Root{{URI: "file:///verif-client-root", Name: "r"}}
 }
